@@ -207,6 +207,22 @@ def participant_removal(fx, rep):
             "(current_count does not drop)" % lst)
 
 
+    # sibling agreement: the reader half and the writer half select the departed participant's endpoints by the same identity
+    # field of the announced data (`key`, the endpoint GUID, or `participant_key`, which is optional on the wire and zero when
+    # a remote implementation omits it): halves that disagree drop the endpoints on one side only
+    sel = {}
+    for kid in fam:
+        if not kid.kind.startswith("Closure") or kid.mir.locals[0] != "bool":
+            continue
+        flds = {f for a, f in (tuple(x) for x in (kid.sum_fields or ())) if short_ty(a).endswith("BuiltinTopicData") and f in ("key", "participant_key")}
+        if flds:
+            sel[kid.sname] = flds
+    kinds = {frozenset(v) for v in sel.values()}
+    add("R16e", "endpoint selections of remove_discovered_participant use the same identity field in both halves", len(kinds) <= 1,
+        "the predicates disagree: %s" % {k.split("::")[-1]: sorted(v) for k, v in sel.items()})
+    return len(sel)
+
+
 def run(ctx, rep):
     fx = ctx.facts
     n = mutations(fx, rep)
@@ -217,4 +233,5 @@ def run(ctx, rep):
     rep.floor("R16c", r, 2, "incompatible-QoS branches of the endpoint re-evaluation")
     g = getters(fx, rep)
     rep.floor("R16d", g, 2, "matched-status getters")
-    participant_removal(fx, rep)
+    nsel = participant_removal(fx, rep)
+    rep.floor("R16e-sel", nsel, 2, "endpoint selection predicates in remove_discovered_participant")
